@@ -21,6 +21,7 @@ let body_of s =
   if String.length s >= 2 && String.sub s 0 2 = "L:" then BList (chunks_of (String.sub s 2 (String.length s - 2)))
   else match String.split_on_char ':' s with
     | ["F"; bs; d] -> BFile (nlist_of_hex d, nat_of_int (int_of_string bs))
+    | ["W"; bs; hs; fs; hk; d] -> BWrap (nlist_of_hex d, nat_of_int (int_of_string bs), hs = "1", fs = "1", hk = "1")
     | _ -> failwith "body"
 let env_of m r ir ims inm im =
   { q_method = nlist_of_csv m; q_range = opt r; q_if_range = opt ir; q_if_modified_since = opt ims;
